@@ -122,7 +122,7 @@ R4 = {
  "C19-5": dict(property="C19",
    what="ChainMonitor::update_channel_internal: when update_monitor refuses an update the persister is handed Some(update) instead of a full monitor write: MonitorUpdatingPersister stores the refused update, recovery replays it and fails",
    needs="incremental persister, a commitment update arriving after the monitor went on chain, its id not a multiple of maximum_pending_updates, restart before the next consolidation",
-   checks={"tools/rehearse.sh r4h C19 <patch> quick": "PENDING"},
+   checks={"tools/rehearse.sh r4h C19 <patch> quick": "exit 0 -- MISSED (the engine drives MonitorUpdatingPersister directly, never through ChainMonitor, and never with an update the monitor refuses); strengthening delegated (builder kv5): MUP.tla gains the caller's side as ChainMonitor implements it"},
    detected=[]),
  "C20-5": dict(property="C20",
    what="SpvClient::update_chain_tip: on a partially completed sync the client adopts the tip it reached only if it has more work than the old one (was: if it differs): its chain_tip goes stale relative to where the listener was left",
